@@ -469,7 +469,8 @@ def correspond_decref(ctx):
     from foolscap.referenceable import ReferenceableTracker
     vals = [-3, -1, 0, 1, 2, 3, 5, 2 ** 40]
     grid = [(n, rc) for n in vals for rc in vals if rc >= 0]
-    body = ("Definition enc (r : res (bool * Z)) : Z * Z := match r with Ok (d, rc) => ((if d then 1 else 0), rc) | Exc _ => (2, 0) end.\n"
+    body = ("Local Open Scope Z_scope.\n"
+            "Definition enc (r : res (bool * Z)) : Z * Z := match r with Ok (d, rc) => ((if d then 1 else 0), rc) | Exc _ => (2, 0) end.\n"
             "Eval vm_compute in map (fun p => enc (tracker_decref (fst p) (snd p))) %s.\n"
             % coq_list(["(%s, %s)" % (coq_Z(n), coq_Z(rc)) for n, rc in grid]))
     try:
